@@ -4,14 +4,19 @@ use serde_json::{Map, Value as J};
 pub mod common;
 pub mod c01;
 pub mod c02;
+pub mod c03;
+pub mod c04;
+pub mod vals;
 pub mod c05;
+pub mod c09;
 pub mod c10;
 pub mod c11;
 pub mod c12;
+pub mod c17;
 pub mod tokens;
 
 pub fn all() -> Vec<&'static dyn Prop> {
-    vec![&c01::C01, &c02::C02, &c05::C05, &c10::C10, &c11::C11, &c12::C12]
+    vec![&c01::C01, &c02::C02, &c03::C03, &c04::C04, &c05::C05, &c09::C09, &c10::C10, &c11::C11, &c12::C12, &c17::C17]
 }
 
 pub fn find(id: &str) -> Option<&'static dyn Prop> {
